@@ -34,7 +34,7 @@ class Kernel:
         self.cfile = cfile; self.name = name
         self.requires_ = []; self.ensures_ = []; self.assigns_ = []; self.loops = {}
         self.ghosts = []; self.lemmas = []; self.param_types = {}
-        self.behaviors = []
+        self.behaviors = []; self.bounded_ = []; self.options = {}
         self.props = {}          # clause text -> set of property ids it serves
         self.trusted = []        # assumed external facts (strings), always listed
         self.ret_unconstrained = False
@@ -48,6 +48,12 @@ class Kernel:
 
     def ensures(self, e, props=()):
         self.ensures_.append(e); self.props[e] = set(props); return self
+
+    def bounded(self, e, props=(), assumes=None):
+        """a clause of the contract that is NOT turned into proof obligations: it is only evaluated concretely on
+        the executions of the real kernel (bounded differential runs) and reported as a bounded clause"""
+        t = e if assumes is None else 'implies(%s, %s)' % (assumes, e)
+        self.bounded_.append(t); self.props[t] = set(props); return self
 
     def behavior(self, name, assumes, ensures, props=()):
         for e in ([ensures] if isinstance(ensures, str) else ensures):
@@ -64,6 +70,9 @@ class Kernel:
 
     def lemma(self, name, stmt, **kw):
         self.lemmas.append(Lemma(name, stmt, **kw)); return self
+
+    def option(self, **kw):
+        self.options.update(kw); return self
 
     def param_type(self, name, ctype):
         self.param_types[name] = ctype; return self
